@@ -395,3 +395,253 @@ def ln1(model):
     else:
         r.fail(gl.node, 'get_line_starts does not look for "\\n"', stmt='get_line_starts')
     return r
+
+
+# ----------------------------------------------------------------------------- IX7
+def ix7(model):
+    r = RuleResult('IX7', 'item-label generators never end: every generator function registered '
+                   'as `items=` of an environment, and the default label generator of the parser, '
+                   'yields only from inside `while True` loops (expand_item calls next() on it '
+                   'without a default)', floor=3)
+    cg = callgraph(model)
+    gens = set(cg.registry['items'])
+    p = model.func('parser.Parser.__init__')
+    for f in p.nested.values():
+        if any(isinstance(n, (ast.Yield, ast.YieldFrom)) for n in iter_scope(f.node)):
+            gens.add(f)
+    if not gens:
+        raise AnalysisError('anchor vanished: item label generators')
+    for f in sorted(gens, key=lambda x: x.qname):
+        ys = [n for n in iter_scope(f.node) if isinstance(n, (ast.Yield, ast.YieldFrom))]
+        if not ys:
+            r.undec(f.node, 'label function is not a generator')
+            continue
+        for y in ys:
+            q = y._parent
+            inf = False
+            while q is not None and q is not f.node:
+                if isinstance(q, ast.While) and isinstance(q.test, ast.Constant) and q.test.value is True \
+                        and not any(isinstance(b, ast.Break) for b in ast.walk(q)):
+                    inf = True
+                if isinstance(q, ast.For) and not inf:
+                    # a finite loop around the yield is fine only inside an infinite one
+                    pass
+                q = q._parent
+            if inf and _all_paths_loop(f):
+                r.ok(y, '%s yields inside `while True`' % f.name, nontrivial=True)
+            else:
+                r.fail(y, 'the label generator %s can be exhausted: next() in expand_item then '
+                       'raises StopIteration' % f.name,
+                       witness='more \\item\'s in one list than the generator has labels')
+    # the consumer has no default
+    return r
+
+
+def _all_paths_loop(f):
+    """every top-level path of the generator ends in an infinite loop (no fall-through)"""
+    def ends(stmts):
+        if not stmts:
+            return False
+        last = stmts[-1]
+        if isinstance(last, ast.While) and isinstance(last.test, ast.Constant) and last.test.value is True:
+            return True
+        if isinstance(last, ast.If):
+            return ends(last.body) and ends(last.orelse)
+        return False
+    return ends(f.node.body)
+
+
+# ----------------------------------------------------------------------------- IX8
+def ix8(model):
+    import re._parser as sre_parse
+    import re._constants as sre_c
+    r = RuleResult('IX8', 'numeric conversions cannot raise: int()/float() of document text is '
+                   'guarded by isdecimal(), lies in a try, or converts a regex group every '
+                   'alternative of which contains at least one digit', floor=3)
+
+    def min_digits(items):
+        n = 0
+        for op, av in items:
+            if op is sre_c.IN and any(o is sre_c.CATEGORY and a is sre_c.CATEGORY_DIGIT for o, a in av):
+                n += 1
+            elif op in (sre_c.MAX_REPEAT, sre_c.MIN_REPEAT):
+                lo, hi, sub = av
+                n += lo * min_digits(list(sub))
+            elif op is sre_c.SUBPATTERN:
+                n += min_digits(list(av[3]))
+            elif op is sre_c.BRANCH:
+                n += min(min_digits(list(x)) for x in av[1])
+        return n
+
+    def group_items(tree, k):
+        for op, av in tree:
+            if op is sre_c.SUBPATTERN:
+                if av[0] == k:
+                    return list(av[3])
+                g = group_items(list(av[3]), k)
+                if g is not None:
+                    return g
+            elif op is sre_c.BRANCH:
+                for x in av[1]:
+                    g = group_items(list(x), k)
+                    if g is not None:
+                        return g
+            elif op in (sre_c.MAX_REPEAT, sre_c.MIN_REPEAT):
+                g = group_items(list(av[2]), k)
+                if g is not None:
+                    return g
+        return None
+
+    for f in model.all_funcs():
+        if isinstance(f.node, ast.Lambda) or f.mod.short.startswith('shell') or f.mod.short == 'tex2txt':
+            continue
+        for n in iter_scope(f.node):
+            if not (isinstance(n, ast.Call) and isinstance(n.func, ast.Name) and n.func.id in ('int', 'float')
+                    and n.args):
+                continue
+            a = n.args[0]
+            # inside try?
+            q, c = n._parent, n
+            in_try = False
+            while q is not None and q is not f.node:
+                if isinstance(q, ast.Try) and any(c is s for s in q.body):
+                    in_try = True
+                c, q = q, q._parent
+            if in_try:
+                r.ok(n, 'conversion inside try', nontrivial=True)
+                continue
+            srcs = [x for x in ast.walk(a) if isinstance(x, ast.Name)]
+            if any(guards.has_fact(n, lambda e, t, v=v: t and isinstance(e, ast.Call)
+                                   and T.call_name(e) == 'isdecimal' and unparse(e.func.value) == v.id)
+                   for v in srcs):
+                r.ok(n, 'guarded by isdecimal()', nontrivial=True)
+                continue
+            if isinstance(a, ast.Subscript) and guards.has_fact(
+                    n, lambda e, t: not t and isinstance(e, ast.UnaryOp) or
+                    (t and isinstance(e, ast.Call) and T.call_name(e) == 'isdecimal')):
+                r.ok(n, 'single character tested with isdecimal()', nontrivial=True)
+                continue
+            grp = [x for x in ast.walk(a) if isinstance(x, ast.Call) and T.call_name(x) == 'group'
+                   and x.args and isinstance(x.args[0], ast.Constant)]
+            if grp:
+                k = grp[0].args[0].value
+                mvar = grp[0].func.value
+                pat = None
+                for v in T.resolve_local(model, mvar) if isinstance(mvar, ast.Name) else []:
+                    if isinstance(v, ast.Call) and isinstance(v.func, ast.Attribute) \
+                            and isinstance(v.func.value, ast.Name):
+                        g = f.mod.globals.get(v.func.value.id)
+                        if g and isinstance(g[0], ast.Call) and g[0].args and isinstance(g[0].args[0], ast.Constant):
+                            pat = g[0].args[0].value
+                if pat is None:
+                    r.undec(n, 'pattern of the converted group not found')
+                    continue
+                tree = sre_parse.parse(pat)
+                items = group_items(list(tree), k)
+                if items is not None and min_digits(items) >= 1:
+                    r.ok(n, 'group %d of %r always contains a digit' % (k, pat), nontrivial=True)
+                else:
+                    r.fail(n, 'group %d of the pattern %r can match text without a digit: %s() '
+                           'raises ValueError' % (k, pat, n.func.id),
+                           witness='\\hspace{.}')
+                continue
+            if isinstance(a, (ast.Constant, ast.BinOp)) or any(isinstance(x, ast.Call) and T.call_name(x) in ('start', 'end')
+                                                                for x in ast.walk(a)):
+                r.ok(n, 'conversion of a number', sample=False)
+                continue
+            # text of the document?
+            doc = False
+            for v in srcs:
+                for val in T.resolve_local(model, v):
+                    if isinstance(val, ast.Call) and T.call_name(val) in (
+                            'get_text_expanded', 'get_text_direct', 'strip', 'group'):
+                        doc = True
+                    if isinstance(val, ast.Attribute) and val.attr == 'txt':
+                        doc = True
+            if doc:
+                r.fail(n, '%s() is applied to text of the document without isdecimal() / try: '
+                       'ValueError for non-numeric text' % n.func.id,
+                       witness='\\newcommand{\\x}[abc]{..}')
+            else:
+                r.undec(n, 'conversion %s not classified' % unparse(n)[:40])
+    return r
+
+
+# ----------------------------------------------------------------------------- IX9
+def ix9(model):
+    r = RuleResult('IX9', 'options that default to None (Options(lang, repl, dcls, pack, extr)) are '
+                   'used in tex2txt() only under a truth test of themselves, as `opt or default`, '
+                   'or are handed to a function that tests its parameter before using it', floor=5)
+    oc = model.func('tex2txt.Options.__init__')
+    a = oc.node.args
+    names = [x.arg for x in a.args]
+    defaults = dict(zip(names[len(names) - len(a.defaults):], a.defaults))
+    nullable = {k for k, v in defaults.items() if isinstance(v, ast.Constant) and v.value is None}
+    # normalised in __init__ (`if not self.x: self.x = ...`)
+    for n in iter_scope(oc.node):
+        if isinstance(n, ast.If) and isinstance(n.test, ast.UnaryOp) and isinstance(n.test.operand, ast.Attribute):
+            nullable.discard(n.test.operand.attr)
+    f = model.func('tex2txt.tex2txt')
+    opar = f.params[1]
+    for n in iter_scope(f.node):
+        if not (isinstance(n, ast.Attribute) and isinstance(n.value, ast.Name) and n.value.id == opar
+                and n.attr in nullable and isinstance(n.ctx, ast.Load)):
+            continue
+        p = n._parent
+        if isinstance(p, ast.BoolOp) and isinstance(p.op, ast.Or) and p.values[0] is n and len(p.values) > 1:
+            r.ok(n, '%s or <default>' % unparse(n), nontrivial=True)
+            continue
+        if isinstance(p, (ast.If, ast.IfExp)) and p.test is n:
+            r.ok(n, 'truth test of %s' % unparse(n))
+            continue
+        if isinstance(p, ast.BoolOp) and isinstance(p.op, ast.And) and p.values[0] is n:
+            r.ok(n, 'truth test of %s' % unparse(n))
+            continue
+        if guards.has_fact(n, lambda e, t: t and unparse(e) == unparse(n)):
+            r.ok(n, 'used under a truth test of itself', nontrivial=True)
+            continue
+        if isinstance(p, ast.Call) or (isinstance(p, ast.keyword)):
+            call = p if isinstance(p, ast.Call) else p._parent
+            rc = model.resolve_call(call)
+            tgt = None
+            if rc and rc[0] == 'func':
+                tgt = rc[1]
+            elif rc and rc[0] == 'class':
+                tgt = model.find_method(rc[1], '__init__')
+            if tgt is not None:
+                off = 1 if tgt.cls is not None else 0
+                if isinstance(p, ast.keyword):
+                    par = p.arg
+                else:
+                    i = call.args.index(n)
+                    par = tgt.params[i + off] if i + off < len(tgt.params) else None
+                if par and _param_tested_first(tgt, par):
+                    r.ok(n, '%s tests its parameter %s before use' % (tgt.name, par), nontrivial=True)
+                    continue
+            r.fail(n, '%s may be None and is passed on without a test' % unparse(n),
+                   witness='Options() without this option')
+            continue
+        r.fail(n, '%s may be None (the option was not given) and is used without a truth test '
+               'or default' % unparse(n),
+               witness='multi_language=True with Options(lang=None)')
+    return r
+
+
+def _param_tested_first(fn, par):
+    """the first use of the parameter in the function body is a truth test (or `par or ..`)"""
+    for n in ast.walk(fn.node):
+        pass
+    uses = [n for n in iter_scope(fn.node) if isinstance(n, ast.Name) and n.id == par
+            and isinstance(n.ctx, ast.Load)]
+    if not uses:
+        return True
+    uses.sort(key=lambda x: (x.lineno, x.col_offset))
+    u = uses[0]
+    p = u._parent
+    if isinstance(p, (ast.If, ast.IfExp)) and p.test is u:
+        return True
+    if isinstance(p, ast.UnaryOp) and isinstance(p.op, ast.Not):
+        return True
+    if isinstance(p, ast.BoolOp) and p.values[0] is u:
+        return True
+    return False
